@@ -173,6 +173,19 @@ def eval_loop(body, ch):
         if st.get("k") == "local" and st["pat"].get("k") == "p_ident" and st["pat"].get("mut") and st.get("init") is not None and ("String::new" in show(st["init"]) or "String::with_capacity" in show(st["init"])):
             out_name = st["pat"]["n"]
     loops = [st for st in body["s"] if st.get("k") == "for" and ".chars()" in show(st["e"])]
+    if out_name is None and not loops:
+        # the same loop written as `s.chars().fold(String::new(), |mut out, c| { ..; out })`
+        folds = [n for n in walk(body) if n.get("k") == "mcall" and n["m"] == "fold" and ".chars()" in show(n["r"]) and len(n["a"]) == 2
+                 and n["a"][1].get("k") == "closure" and ("String::new" in show(n["a"][0]) or "String::with_capacity" in show(n["a"][0]))]
+        if len(folds) == 1:
+            cl = folds[0]["a"][1]
+            ps = [[x["n"] for x in walk(p_) if x.get("k") == "p_ident"] for p_ in cl["params"]]
+            if len(ps) == 2 and len(ps[0]) == 1 and len(ps[1]) == 1:
+                b = cl["body"]
+                stmts = list(b["s"]) if b.get("k") == "block" else [b]
+                if stmts and stmts[-1].get("k") == "path" and stmts[-1]["p"] == ps[0][0]:
+                    return _run(stmts[:-1], ps[0][0], ps[1][0], ch)
+        raise Unreadable("not an accumulate-per-character loop")
     if out_name is None or len(loops) != 1:
         raise Unreadable("not an accumulate-per-character loop")
     names = [x["n"] for x in walk(loops[0]["pat"]) if x.get("k") == "p_ident"]
